@@ -6,7 +6,7 @@ import streams
 
 THEOREMS = {"C04": ["apply_patch_replay", "apply_patch_verdicts", "verdicts_are_admissible"],
             "C05": ["reverse_hunk_involutive", "conforming_reverse", "apply_reverse"],
-            "C06": ["reapply_ignored", "reapply_reversed", "force_no_guess"], "C15": [], "C16": [], "C17": [], "C18": []}
+            "C06": ["reapply_ignored", "reapply_reversed", "force_no_guess"], "C15": ["dry_run_pure"], "C16": [], "C17": [], "C18": []}
 
 HUNK_RE = re.compile(r"^Hunk #(\d+) (succeeded|FAILED|skipped) at (-?\d+)(?: with fuzz (\d+))?(?: \(offset (-?\d+) lines?\))?\.", re.M)
 SUMMARY_RE = re.compile(r"^(\d+) out of (\d+) hunks? (FAILED|ignored)", re.M)
